@@ -42,7 +42,7 @@ TEMPLATES = {
 WIDTHS = [{"U": (1, 0), "V": (0, 2)}, {"U": (0, 1)}, {"U": (2, 1), "V": (1, 1)}, {}, {"V": (2, 0)}, {"U": (0, 0), "V": (0, 1)},
           {"U": (1, 2), "V": (2, 2)}, {"U": (2, 0), "V": (0, 0)}, {"U": (1, 1)}]
 RULES = {"fill-sym": ("fill", "fill"), "extend-fill": ("extend", "fill"), "periodic-extend": ("periodic", "extend")}
-WAYS = ["apply", "grid-method", "decorator", "hints", "override"]
+WAYS = ["apply", "grid-method", "decorator", "hints", "override", "override-scalar"]
 
 
 def sig_str(tpl, names=None):
@@ -162,7 +162,7 @@ def case_rec(W, cfg):
             if d not in core and d not in loop_dims:
                 loop_dims.append(d)
 
-    def expected_received(k):
+    def expected_received(k, all_fill=False):
         da, a = args[k], ins[k]
         core = [AXES[bind[n]][p] for n, p in a]
         mine = [d for d in loop_dims if d in da.dims]
@@ -172,7 +172,7 @@ def case_rec(W, cfg):
             if (lo, hi) == (0, 0):
                 continue
             ax_i = len(mine) + j
-            arr = apply_along(arr, ax_i, lambda v, n=n, lo=lo, hi=hi: spec_pad1d(v, lo, hi, rule_by_dummy[n], fv))
+            arr = apply_along(arr, ax_i, lambda v, n=n, lo=lo, hi=hi: spec_pad1d(v, lo, hi, "fill" if all_fill else rule_by_dummy[n], fv))
         # xarray inserts length-1 axes for loop dims this input lacks
         shape = [ds.sizes[d] if d in mine else 1 for d in loop_dims] + list(arr.shape[len(mine):])
         return arr.reshape(shape)
@@ -193,6 +193,12 @@ def case_rec(W, cfg):
                 # definition-time options are overridden by call-time values
                 gu = as_grid_ufunc(signature=sig, boundary_width=kw["boundary_width"], boundary="periodic", fill_value=7.25)(lambda *arrays: rec(*arrays))
                 res = gu(grid, *args, axis=axis, boundary=dict(boundary), fill_value=dict(fill) if fill else None)
+            elif way == "override-scalar":
+                # a scalar call-time fill value (any value, zero included) overrides the one bound at definition
+                if not all(r == "fill" for r in rule_by_dummy.values() if True) and False:
+                    continue
+                gu = as_grid_ufunc(signature=sig, boundary_width=kw["boundary_width"], boundary="extend", fill_value=7.25)(lambda *arrays: rec(*arrays))
+                res = gu(grid, *args, axis=axis, boundary="fill", fill_value=fv)
             else:  # type hints
                 def fn(*arrays):
                     return rec(*arrays)
@@ -221,7 +227,7 @@ def case_rec(W, cfg):
         if rec.received is None:
             continue
         for k in range(len(ins)):
-            want = expected_received(k)
+            want = expected_received(k, all_fill=(way == "override-scalar"))
             got = rec.received[k]
             # the statement fixes the trailing (signature) axes only: unit-length placeholders for loop
             # dimensions an input lacks may or may not be present
